@@ -115,7 +115,7 @@ func HarnessC10Reject() {
 		if kind != 'i' {
 			return
 		}
-		toks := []string{"9223372036854775808", "-9223372036854775809", "99999999999999999999", "1.5", "", "1e3", " 1"}
+		toks := []string{"9223372036854775808", "-9223372036854775809", "99999999999999999999", "1.5", "", "1e3", " 1", "0x10", "0X1f", "0b11", "0o17", "1_000", "1 ", "+", "-", "0x"}
 		pos[j][0] = []byte(toks[vsymChoice("badint", len(toks))])
 		vsymTag("malformation", "bad-integer")
 		vsymCover("bad-integer")
